@@ -7,7 +7,7 @@ from .lib import decision, guards, paths
 from .lib.mir import AnchorLost
 from .lib.reachrule import ReachRule
 
-CONFIGS_QUICK = ["A"]
+CONFIGS_QUICK = ["A", "R"]
 CONFIGS_THOROUGH = ["A", "R", "NOAPI"]
 
 TECHNIQUE = "dominance of the success return by the credential test (built MIR of the fore coroutines) + decision-tree extraction of matches() + panic reachability"
